@@ -148,9 +148,10 @@ def _check(ctx, cfgs, tag, env=None):
     return tpath, rows, bad
 
 
-def _repro(ctx, cfg, inv):
-    """Fresh driver run on the single configuration; every one of K repetitions is judged (one line each)."""
-    tpath, rows, bad = _check(ctx, [cfg], "repro", env={"VERIF_K": 12, "VERIF_SPLITK": 1})
+def _repro(ctx, cfgs, cfg, inv):
+    """Fresh driver run of the same input restricted to the suspected configuration (its whole batch is rebuilt so that
+    accounts, addresses and epoch hashes are the same); every one of K repetitions is judged (one line each)."""
+    tpath, rows, bad = _check(ctx, cfgs, "repro", env={"VERIF_K": 20, "VERIF_SPLITK": 1, "VERIF_ONLY": cfg["id"]})
     if bad is None:
         return None
     r = rows[bad["line"] - 1]
@@ -195,12 +196,12 @@ def run(ctx):
         cfg, r = cfg_of_line(rows, cfgs, bad["line"])
         if cfg is None:
             raise vlib.Infra("violating line %d has no configuration" % bad["line"])
-        again = _repro(ctx, cfg, bad["inv"])
+        again = _repro(ctx, cfgs, cfg, bad["inv"])
         if again is None:
             raise vlib.Infra("counter-example not reproduced: %s on configuration %s" % (bad["inv"], cfg["id"]))
         ctx.violation(again["sig"], "real pairing answers violate %s: cfg=%s epoch#%s list=%s verify=%s eff=%s" % (
             again["inv"], cfg["id"], again["row"]["k"], again["row"]["list"], again["row"]["ver"],
-            json.dumps(again["row"]["eff"])[:300]), {"configs": [cfg]})
+            json.dumps(again["row"]["eff"])[:300]), {"configs": cfgs, "only": cfg["id"]})
         return
     ctx.cov["traces_validated_against_impl"] += len(cfgs)
     ctx.cov["trace_events"] = len(rows)
@@ -213,7 +214,7 @@ def run(ctx):
 def replay(ctx, path):
     with open(path) as f:
         obj = json.load(f)
-    for cfg in obj["configs"]:
-        again = _repro(ctx, cfg, None)
-        if again:
-            ctx.violation(again["sig"], "replayed configuration still violates %s" % again["inv"], {"configs": [cfg]})
+    cfg = [c for c in obj["configs"] if c["id"] == obj["only"]][0]
+    again = _repro(ctx, obj["configs"], cfg, None)
+    if again:
+        ctx.violation(again["sig"], "replayed configuration still violates %s" % again["inv"], obj)
